@@ -60,6 +60,10 @@ claim("C14",
       "inferred lock discipline (fields written under a mutex must always be accessed under it, caller-holds and constructor exemptions, re-entrancy); reachability-based audit of unsynchronised lazy getters against the sequential set-up of the first server; per-iteration-index check of goroutine closure writes; doneCh-dominance of result reads; escape-then-write reachability for objects handed to sub-checks; placement of visited-set installers below a single check; fresh decode targets",
       "Decides lock discipline and the sharing shapes that keep per-request state private (visited sets, result slots, handed-over tuples, decode targets); does not decide general data-race freedom or result equality under concurrency. Right level: which lock dominates which access and which object escapes where are static scoping facts.")
 
+claim("C19",
+      "dominance of the publish (set) by the empty-error-list branch with def-use of every parse error into that list; branch-shape check of the legacy watcher's keep-last-good update; type walk of the manager structs for stored one-shot streams; inferred lock discipline and re-entrancy in driver/config; fresh-map check of the publish; agreement table between each namespace-configuration kind's value() type and the type its manager's ShouldReload compares against",
+      "Decides the gate, the keep-last-good branch shapes, the stored-stream hazard, lock hygiene, whole-set replacement and that unrelated configuration changes do not tear managers down; does not decide eventual delivery of file events. Right level: these are shape and table-agreement facts of the watcher code.")
+
 for p in ["C04","C05","C06","C07","C08","C09","C11","C12","C13","C14","C16","C18","C19"]:
     na(p, NOTBUILT)
 na("C10", "semantic equivalence between the parser's output and TypeScript's grammar over all programs: precedence/associativity is not a code shape every correct parser shares; no sound structural necessary condition found (and the property is known to be violated: a||b&&c parses as (a||b)&&c), so a static green light would be misleading")
